@@ -757,6 +757,15 @@ func (c *Ctx) BinBV(op Op, a, b *Term) *Term {
 			return c.SExt(c.bin(op, BV(nw), na, nb), 64)
 		}
 	}
+	if w <= 64 && op == OSub && b.IsConst() && a.Op == OAdd {
+		// (x + c) - c  ->  x   (digit bytes built as '0' + d)
+		if a.Args[0].IsConst() && a.Args[0].Val == b.Val {
+			return a.Args[1]
+		}
+		if a.Args[1].IsConst() && a.Args[1].Val == b.Val {
+			return a.Args[0]
+		}
+	}
 	if w <= 64 {
 		switch op {
 		case OAdd, OBOr, OBXor:
